@@ -177,6 +177,9 @@ class Ctx:
         drive coqc themselves (coq_build) so that concurrent checks never share a Makefile."""
         files = sorted(str(f.relative_to(COQ)) for f in COQ.rglob("*.v")
                        if not any(part.startswith(".") for part in f.relative_to(COQ).parts))
+        for f in files:          # extraction targets live in (untracked) <ID>/extracted/
+            if Path(f).name.startswith("Extract"):
+                (COQ / Path(f).parent / "extracted").mkdir(exist_ok=True)
         txt = "-Q . LibaV\n" + "\n".join(files) + "\n"
         cp = COQ / "_CoqProject"
         if (not cp.exists()) or cp.read_text() != txt:
